@@ -400,6 +400,10 @@ func (prop) Run(t *testing.T, tape *kernel.Tape, sc kernel.Scenario) *kernel.Res
 		sums = append(sums, worlds[i].summary())
 	}
 	defaultAuth := tape.Bool(3, "auth-writer-is-the-runtime-default")
+	debugMode := tape.Bool(6, "debug-mode")
+	if debugMode {
+		env.Fault("debug-mode")
+	}
 	res.Summary = strings.Join(sums, " || ")
 	if ncalls > 1 {
 		env.Fault("concurrent-calls")
@@ -420,6 +424,10 @@ func (prop) Run(t *testing.T, tape *kernel.Tape, sc kernel.Scenario) *kernel.Res
 		}
 		rt := client.New("sim.local", "/", []string{"http"})
 		rt.Transport = tr
+		if debugMode {
+			rt.Debug = true
+			rt.SetLogger(quietLogger{})
+		}
 		for i := range worlds {
 			i, w := i, worlds[i]
 			op := &runtime.ClientOperation{ID: "send", Method: w.method, PathPattern: "/send", Schemes: []string{"http"},
@@ -681,3 +689,8 @@ func sortedValues(v url.Values) []string {
 	sort.Strings(out)
 	return out
 }
+
+type quietLogger struct{}
+
+func (quietLogger) Printf(string, ...interface{}) {}
+func (quietLogger) Debugf(string, ...interface{}) {}
